@@ -190,13 +190,25 @@ def interpolation_shape(P, rep, rule="I1"):
                     want_b = a.replace("current_section", "next_section")
                     # running values of the two sections held in locals: told apart by which section's models update them, not by name
                     twin = None
-                    la, lb = sc(A), sc(o["c"][0])
-                    sa_, sb_ = astq.subscript(la), astq.subscript(lb)
-                    ka = sc(sa_[0]) if sa_ else la
-                    kb = sc(sb_[0]) if sb_ else lb
+                    def base_and_path(e):
+                        """strip subscripts and member accesses: (base node, access path as text)"""
+                        path = []
+                        e = sc(e)
+                        while True:
+                            sb = astq.subscript(e)
+                            if sb is not None:
+                                path.append("[%s]" % R(sb[1]))
+                                e = sc(sb[0])
+                                continue
+                            if e.get("k") == "MemberExpr" and e.get("c") and not e.get("arrow"):
+                                path.append("." + e.get("n", "?"))
+                                e = sc(e["c"][0])
+                                continue
+                            return e, "".join(reversed(path))
+                    ka, pa_ = base_and_path(A)
+                    kb, pb_ = base_and_path(o["c"][0])
                     if a2 == a and ka.get("k") == "DeclRefExpr" and kb.get("k") == "DeclRefExpr" and P.d(ka["r"]).get("storage") == "local" and P.d(kb["r"]).get("storage") == "local":
-                        same_idx = (sa_ is None and sb_ is None) or (sa_ is not None and sb_ is not None and R(sa_[1]) == R(sb_[1]))
-                        if same_idx:
+                        if pa_ == pb_:
                             twin = (updated_by_section(P, F, ka["r"]), updated_by_section(P, F, kb["r"]))
                     if twin is not None and twin[0] is not None:
                         if twin == ("current_section", "next_section"):
@@ -404,7 +416,24 @@ def membership(P, rep, rule="M1"):
                    "(inclusive); d and a are the two distances returned by distance_point_from_curved_planes")
     for name, cls in LINE.items():
         F = P.func(cls + "::properties")
-        R = lambda x: norm.render(P, x, nocast=True).replace(" ", "")
+        # roles instead of names: what a local stands for is read from its (transitively inlined) initialiser
+        nl = norm.naming_locals(P, F)
+        roles = {F.params[2]: "depth"} if len(F.params) > 2 else {}
+        for v in F.walk():
+            if v.get("k") == "VarDecl" and v.get("c") and P.d(v["r"]).get("storage") == "local":
+                t = norm.render(P, v["c"][0], nocast=True, subst=nl).replace(" ", "")
+                if t.endswith(".distance_from_plane"):
+                    roles[v["r"]] = "distance_from_plane"
+                elif t.endswith(".distance_along_plane"):
+                    roles[v["r"]] = "distance_along_plane"
+                elif "_segment_thickness[" in t and "][0]" in t and "][1]" in t and "_segment_top_truncation" not in t:
+                    roles[v["r"]] = "thickness_local"
+                elif "_segment_top_truncation[" in t and "][0]" in t and "][1]" in t and "_segment_thickness" not in t:
+                    roles[v["r"]] = "top_truncation_local"
+                elif re.search(r"total_\w+_length\[", t) and "_segment_" not in t:
+                    roles[v["r"]] = "max_length"
+        sub = norm.Subst(bind=roles)
+        R = lambda x: norm.render(P, x, nocast=True, subst=sub).replace(" ", "").replace("std::fabs", "fabs")
         sw = None
         from .layout import find_switch_on_kind
         sw = find_switch_on_kind(P, F)[0]
@@ -434,12 +463,12 @@ def membership(P, rep, rule="M1"):
         got = sorted(normrel(c) for c in conj)
         if name == "SubductingPlate":
             want = sorted(["top_truncation_local <= distance_from_plane", "distance_from_plane <= thickness_local", "0 <= distance_along_plane",
-                           "distance_along_plane <= max_slab_length"])
+                           "distance_along_plane <= max_length"])
         else:
             want = None
-            alts = [sorted(["std::fabs(distance_from_plane) <= (thickness_local*0.5)", "0 < distance_along_plane", "distance_along_plane <= max_fault_length"]),
-                    sorted(["std::fabs(distance_from_plane) <= (0.5*thickness_local)", "0 < distance_along_plane", "distance_along_plane <= max_fault_length"]),
-                    sorted(["fabs(distance_from_plane) <= (thickness_local*0.5)", "0 < distance_along_plane", "distance_along_plane <= max_fault_length"])]
+            alts = [sorted(["fabs(distance_from_plane) <= (thickness_local*0.5)", "0 < distance_along_plane", "distance_along_plane <= max_length"]),
+                    sorted(["fabs(distance_from_plane) <= (0.5*thickness_local)", "0 < distance_along_plane", "distance_along_plane <= max_length"]),
+                    sorted(["fabs(distance_from_plane) <= (thickness_local/2)", "0 < distance_along_plane", "distance_along_plane <= max_length"])]
             want = got if got in alts else alts[0]
         if got == want:
             rep.ok(rule, "%s membership: %s" % (name, " && ".join(got)), F.nloc(inner), F.qn)
@@ -448,11 +477,7 @@ def membership(P, rep, rule="M1"):
                           "expected %s" % " && ".join(want), key="%s|%s|membership" % (rule, name),
                           witness="points exactly on the slab top / at the slab tip / at distance thickness")
         # provenance of d and a
-        decls = {x.get("n"): x for x in F.walk() if x.get("k") == "VarDecl" and x.get("c")}
-        okp = True
-        for v, fld in (("distance_from_plane", "distance_from_plane"), ("distance_along_plane", "distance_along_plane")):
-            if v not in decls or not R(decls[v]["c"][0]).endswith("." + fld):
-                okp = False
+        okp = {"distance_from_plane", "distance_along_plane"} <= set(roles.values())
         if okp:
             rep.ok(rule, "%s: d, a taken from the fields of the same names of the curved-planes result" % name, F.loc, F.qn)
         else:
